@@ -90,6 +90,9 @@ fn check_tx(net: &Net, before: usize, hdr: usize, payload: &[u8], what: &str) {
 
 struct VBuf {
     depth: usize,
+    /// Operation *types* are free choices and buffer indices are bounded deviations from
+    /// "oldest first" (deeper histories).
+    deep: bool,
 }
 
 impl TransportVisitor for VBuf {
@@ -128,7 +131,26 @@ impl TransportVisitor for VBuf {
             for l in 0..TX_LENS.len() {
                 menu.push((3, l, 0));
             }
-            let (op, a, b) = menu[choose(menu.len(), "net operation")];
+            let (op, a, b) = if self.deep {
+                match choose(4, "net operation type") {
+                    0 => {
+                        if posted == 0 {
+                            continue;
+                        }
+                        (0u8, crate::engine::chooser::deviate(posted, "which posted buffer the device fills (default: oldest)"), 1 + crate::engine::chooser::deviate(2, "frame length (default: 1 byte)"))
+                    }
+                    1 => (1, 0, 0),
+                    2 => {
+                        if held.is_empty() {
+                            continue;
+                        }
+                        (2, crate::engine::chooser::deviate(held.len(), "which held buffer is recycled (default: oldest)"), 0)
+                    }
+                    _ => (3, 2, 0),
+                }
+            } else {
+                menu[choose(menu.len(), "net operation")]
+            };
             match op {
                 0 => {
                     seq += 1;
@@ -449,6 +471,10 @@ impl TransportVisitor for VRaw {
 }
 
 pub fn run(tkind: TKind, raw: bool, depth: usize) {
+    run_mode(tkind, raw, depth, false)
+}
+
+pub fn run_mode(tkind: TKind, raw: bool, depth: usize, deep: bool) {
     hal::reset();
     let feats = [F_VERSION_1 | (1 << 5), (1 << 5) | (1 << 16), F_VERSION_1 | F_INDIRECT | F_EVENT_IDX];
     let offered = feats[choose(feats.len(), "offered features")];
@@ -457,7 +483,7 @@ pub fn run(tkind: TKind, raw: bool, depth: usize) {
     if raw {
         w.with_transport(VRaw { depth });
     } else {
-        w.with_transport(VBuf { depth });
+        w.with_transport(VBuf { depth, deep });
     }
     mmio::set_handler(None);
 }
